@@ -214,6 +214,9 @@ pub fn eval(e: &Expr, c: &Ctx) -> R {
             let y = match eval(b, c) { R::V(v) => v, R::AnyOf(_) => return R::Unjudged("open-choice-operand"), other => return other };
             match (x, y) {
                 (MVal::Date(p), MVal::Date(q)) => R::V(MVal::Dur { secs: (p - q).abs() * 86400, cal: None }),
+                // a clock time held in a variable was anchored on the day it was bound; what its difference to a
+                // time of another day is, no statement says
+                (MVal::Time { .. }, MVal::Time { .. }) if !matches!(&**a, Expr::Lit(_)) || !matches!(&**b, Expr::Lit(_)) => R::Unjudged("difference-of-time-variables"),
                 (MVal::Time { wall: p, off: o1, .. }, MVal::Time { wall: q, off: o2, .. }) if o1 == o2 => R::V(MVal::Dur { secs: (p - q).abs(), cal: None }),
                 (MVal::Time { .. }, MVal::Time { .. }) => R::Unjudged("time-difference-across-zones"),
                 _ => R::Unjudged("between-of-these-kinds"),
